@@ -333,7 +333,7 @@ func genC02Op(t *simrt.Tape, selected bool) c02op {
 		o.Fetch = genFetchOptions(t)
 	case "Store":
 		numset()
-		o.Store = &imap.StoreFlags{Op: []imap.StoreFlagsOp{imap.StoreFlagsSet, imap.StoreFlagsAdd, imap.StoreFlagsDel}[t.Choose(3)], Silent: t.Choose(2) == 0, Flags: genFlags(t, 1)}
+		o.Store = &imap.StoreFlags{Op: []imap.StoreFlagsOp{imap.StoreFlagsSet, imap.StoreFlagsAdd, imap.StoreFlagsDel}[t.Choose(3)], Silent: t.Choose(2) == 0, Flags: genFlags(t, map[bool]int{true: 0, false: 1}[t.Choose(4) == 3])} // (sometimes an empty list: "FLAGS ()" clears all flags)
 	case "Copy", "Move":
 		numset()
 		o.S = []string{genMailboxName(t)}
